@@ -1862,6 +1862,28 @@ def check_C17(v, tier, seed):
                     msg = f"invalid argument accepted or misreported: res={' '.join(c.res)}"
                 elif c.events:
                     msg = f"system calls were made before the argument was refused: {len(c.events)}"
+            # the other two invalid-argument classes of the property: a file-type field that `mknod` cannot create
+            # (theorems C17_mknod_ok_only / C17_invalid_mode_rejected / C17_socket_not_implemented) and a procfs base
+            # that is none of the three constants (C17_base_decoding): an error id, and no system call
+            if msg is None and not (bad_fd or null_path):
+                try:
+                    if func == "mknod":
+                        fmt = int(kv.get("mode", "0")) & 0o170000
+                        if fmt not in (0o100000, 0o040000, 0o060000, 0o020000, 0o010000):
+                            want = "38" if fmt == 0o140000 else "22"
+                            if c.res[:2] != ["cerr", want]:
+                                msg = (f"mknod with file-type field {fmt:#o} (mode {int(kv['mode']):#o}) accepted or "
+                                       f"misreported (want error {want}): res={' '.join(c.res)}")
+                            elif c.events:
+                                msg = f"system calls were made before the mode was refused: {len(c.events)}"
+                    elif func in ("proc_open", "proc_readlink"):
+                        if int(kv.get("base", "0")) not in (0x5001FFFF, 0x091D5E1F, 0x3EAD5E1F):
+                            if c.res[:2] != ["cerr", "22"]:
+                                msg = f"unknown procfs base {int(kv['base']):#x} accepted or misreported: res={' '.join(c.res)}"
+                            elif c.events:
+                                msg = f"system calls were made before the base was refused: {len(c.events)}"
+                except ValueError:
+                    pass
             if msg is None and c.res[:1] == ["cerr"]:
                 d = c.kv(c.res[2:])
                 if d.get("id_in_range") != "true" or d.get("consumed_once") != "true":
